@@ -1187,6 +1187,203 @@ def check_plan_updater(chk, F):
                        where="src/plan.rs")
 
 
+# ---- R14.12 what the finalizer's satisfier finds in a PSBT input ---------------------------------------------------------
+
+def check_psbt_satisfier(chk, F):
+    from ..builtins import deref, PyMap
+    R = "R14.12"
+    chk.rule(R, "PsbtInputSatisfier answers every signature / key look-up from the PSBT field that BIP-174 / BIP-371 assign to it "
+                "and for exactly the asked key: ECDSA signatures from partial_sigs[key]; the key-spend signature only for the "
+                "recorded internal key; script-spend signatures from tap_script_sigs[(x-only key, leaf)]; raw key-hash look-ups "
+                "return the entry whose key hashes (HASH160 of its context serialization) to the asked hash - and the asked "
+                "leaf; None otherwise; the control-block map is tap_scripts")
+    imp = [i for i in F.impls if i["self_adt"] == SATF and (i["trait"] or "").endswith("Satisfier")]
+    if not imp:
+        chk.fail(R, "anchor", "impl Satisfier for PsbtInputSatisfier not found", kind="unanalysable")
+        return
+    items = {it["name"]: it["path"] for it in imp[0]["items"]}
+    chk.saw(*[items[k] for k in items if k.startswith("lookup_")])
+    m = Machine(F, strict=True)
+    h = m.hooks
+    h["ToPublicKey::to_x_only_pubkey"] = lambda m_, a, c: ("xonly", deref(a[0]))
+    h["ToPublicKey::to_public_key"] = lambda m_, a, c: deref(a[0])
+
+    def tph(m_, a, c):
+        k = deref(a[0])
+        kind = deref(a[1]).variant
+        name = k[1] if isinstance(k, tuple) and k[0] == "xonly" else k
+        return ("h160", kind, name)
+    h["ToPublicKey::to_pubkeyhash"] = tph
+    h["miniscript::ToPublicKey::to_pubkeyhash"] = tph
+    h["bitcoin::PublicKey::new"] = lambda m_, a, c: ("pk", deref(a[0]))
+    inp = mk_input("x")
+    inp.fields["partial_sigs"] = PyMap([("K1", "s1"), ("K2", "s2")])
+    inp.fields["bip32_derivation"] = PyMap([("K2", "src2"), ("K3", "src3")])
+    inp.fields["tap_internal_key"] = some(("xonly", "IK"))
+    inp.fields["tap_key_sig"] = some("ksig")
+    inp.fields["tap_script_sigs"] = PyMap([((("xonly", "X1"), "L1"), "t11"), ((("xonly", "X1"), "L2"), "t12"), ((("xonly", "X2"), "L1"), "t21")])
+    inp.fields["tap_scripts"] = PyMap([("cb1", ("script1", "ver"))])
+    ps = mk_psbt(2, 0, [0], [inp])
+    sat = Adt(SATF, "PsbtInputSatisfier", {"psbt": ps, "index": 0})
+    ECD = lambda k: ("h160", "Ecdsa", k)
+    SCH = lambda k: ("h160", "Schnorr", k)
+    table = [
+        ("lookup_ecdsa_sig", ["K1"], some("s1")), ("lookup_ecdsa_sig", ["K2"], some("s2")), ("lookup_ecdsa_sig", ["K3"], NONE),
+        ("lookup_tap_key_spend_sig", ["IK"], some("ksig")), ("lookup_tap_key_spend_sig", ["X1"], NONE),
+        ("lookup_tap_leaf_script_sig", ["X1", "L1"], some("t11")), ("lookup_tap_leaf_script_sig", ["X1", "L2"], some("t12")),
+        ("lookup_tap_leaf_script_sig", ["X2", "L1"], some("t21")), ("lookup_tap_leaf_script_sig", ["X2", "L2"], NONE),
+        ("lookup_tap_leaf_script_sig", ["IK", "L1"], NONE),
+        ("lookup_raw_pkh_pk", [ECD("K3")], some(("pk", "K3"))), ("lookup_raw_pkh_pk", [ECD("K2")], some(("pk", "K2"))),
+        ("lookup_raw_pkh_pk", [ECD("K9")], NONE), ("lookup_raw_pkh_pk", [SCH("K3")], NONE),
+        ("lookup_raw_pkh_ecdsa_sig", [ECD("K1")], some(("K1", "s1"))), ("lookup_raw_pkh_ecdsa_sig", [ECD("K2")], some(("K2", "s2"))),
+        ("lookup_raw_pkh_ecdsa_sig", [ECD("K3")], NONE), ("lookup_raw_pkh_ecdsa_sig", [SCH("K1")], NONE),
+        ("lookup_raw_pkh_tap_leaf_script_sig", [(SCH("X1"), "L2")], some((("xonly", "X1"), "t12"))),
+        ("lookup_raw_pkh_tap_leaf_script_sig", [(SCH("X2"), "L1")], some((("xonly", "X2"), "t21"))),
+        ("lookup_raw_pkh_tap_leaf_script_sig", [(SCH("X2"), "L2")], NONE),
+        ("lookup_raw_pkh_tap_leaf_script_sig", [(ECD("X1"), "L1")], NONE),
+    ]
+    n = 0
+    for name, args, want in table:
+        key = "%s|%s" % (name, ",".join(repr(x) for x in args))
+        if name not in items:
+            chk.fail(R, "anchor|" + name, "PsbtInputSatisfier has no %s" % name, kind="unanalysable")
+            continue
+        n += 1
+        try:
+            r = m.call_callee({"def": items[name], "resolved": items[name], "name": name, "targs": ["PK"]}, [sat] + list(args))
+            chk.obligation(R, repr(deref(r)) == repr(want), key, "%s gives %r, expected %r" % (key, r, want), where="src/psbt/mod.rs")
+        except Unsupported as e:
+            chk.fail(R, "unanalysable:" + key, "unanalysable: %s" % e, where=e.where, kind="unanalysable")
+        except Panic as e:
+            chk.fail(R, key, "panic: %s" % e, where="src/psbt/mod.rs")
+    # without an internal key recorded no key-spend signature is offered
+    inp2 = dcopy(inp)
+    inp2.fields["tap_internal_key"] = NONE
+    sat2 = Adt(SATF, "PsbtInputSatisfier", {"psbt": mk_psbt(2, 0, [0], [inp2]), "index": 0})
+    try:
+        r = m.call_callee({"def": items["lookup_tap_key_spend_sig"], "resolved": items["lookup_tap_key_spend_sig"],
+                           "name": "lookup_tap_key_spend_sig", "targs": ["PK"]}, [sat2, "IK"])
+        n += 1
+        chk.obligation(R, r.variant == "None", "lookup_tap_key_spend_sig|no-internal-key", "a key-spend signature is offered although "
+                       "the input records no internal key: %r" % (r,), where="src/psbt/mod.rs")
+        r = m.call_callee({"def": items["lookup_tap_control_block_map"], "resolved": items["lookup_tap_control_block_map"],
+                           "name": "lookup_tap_control_block_map", "targs": ["PK"]}, [sat])
+        n += 1
+        good = r.variant == "Some" and repr(deref(r.fields["0"]).pairs) == repr(inp.fields["tap_scripts"].pairs)
+        chk.obligation(R, good, "lookup_tap_control_block_map", "the control-block map is %r, expected the input's tap_scripts" % (r,),
+                       where="src/psbt/mod.rs")
+    except (Unsupported, Panic, KeyError) as e:
+        chk.fail(R, "unanalysable:extra", "unanalysable: %s" % e, kind="unanalysable")
+    chk.floor(R, "look-up cases", n, 22)
+
+
+# ---- R14.13 update_input_with_descriptor: which spent output the descriptor is checked against ----------------------------
+
+def check_update_input(chk, F):
+    from ..builtins import deref
+    R = "R14.13"
+    chk.rule(R, "PsbtExt::update_input_with_descriptor checks the descriptor against the output the input really spends: the "
+                "scriptPubKey handed to the updater is that of non_witness_utxo.output[vout] (its txid must be the spent one, vout "
+                "in range, and equal to witness_utxo when both are present) or of witness_utxo alone for a segwit descriptor only; "
+                "every other combination, an index out of range and a refusing updater are errors and leave the decision to no "
+                "one else (decision table)")
+    fn = "<bitcoin::Psbt as psbt::PsbtExt>::update_input_with_descriptor"
+    if fn not in F.fns:
+        chk.fail(R, "anchor", "PsbtExt::update_input_with_descriptor not found", kind="unanalysable")
+        return
+    helper = F.fn("update_item_with_descriptor_helper", file="psbt/mod.rs")
+    chk.saw(fn)
+
+    def txout(tag):
+        return Adt("bitcoin::TxOut", "TxOut", {"script_pubkey": ("spk", tag), "value": ("value", tag)})
+
+    def prev_tx(n, txid):
+        return Adt(TX, "Transaction", {"version": Term("v"), "lock_time": Term("lt"), "input": PyVec([]),
+                                       "output": PyVec([txout("prev%d" % i) for i in range(n)]), "_txid": txid})
+    seen = []
+
+    def helper_hook(outcome):
+        def f(m_, a, c):
+            seen.append(deref(a[2]))
+            if outcome == "err":
+                return err(Term("derivation-error"))
+            return ok((Term("derived"), outcome == "match"))
+        return f
+    n = 0
+    for segwit in (True, False):
+        for wu_kind, nwu_kind, vout, outcome in itertools.product(("none", "w", "w=prev1"), ("none", "ok3", "ok1", "wrong-txid"), (1, 5),
+                                                                 ("match", "mismatch", "err")):
+            m = Machine(F, strict=True)
+            seen[:] = []
+            m.hooks[helper] = helper_hook(outcome)
+            m.hooks["bitcoin::Transaction::compute_txid"] = lambda m_, a, c: deref(a[0]).fields["_txid"]
+            for q in F.fns:
+                if q.endswith("Descriptor::<Pk>::desc_type"):
+                    m.hooks[q] = lambda m_, a, c: Term("desctype")
+            for q in F.fns:
+                if q.endswith("DescriptorType::segwit_version"):
+                    m.hooks[q] = lambda m_, a, c, segwit=segwit: some(Term("v0")) if segwit else NONE
+            inp = mk_input("x")
+            wu = NONE if wu_kind == "none" else some(txout("w") if wu_kind == "w" else txout("prev1"))
+            nwu = NONE
+            if nwu_kind != "none":
+                nwu = some(prev_tx(3 if nwu_kind == "ok3" else (1 if nwu_kind == "ok1" else 3), "TXID" if nwu_kind != "wrong-txid" else "OTHER"))
+            inp.fields["witness_utxo"] = wu
+            inp.fields["non_witness_utxo"] = nwu
+            ps = mk_psbt(2, 0, [0], [inp])
+            ps.fields["unsigned_tx"].fields["input"].items[0].fields["previous_output"] = Adt("bitcoin::OutPoint", "OutPoint", {"txid": "TXID", "vout": vout})
+            key = "%s|witness_utxo=%s|non_witness_utxo=%s|vout=%d|updater=%s" % ("segwit" if segwit else "legacy", wu_kind, nwu_kind, vout, outcome)
+            n += 1
+            # specification
+            n_out = {"none": 0, "ok3": 3, "ok1": 1, "wrong-txid": 3}[nwu_kind]
+            if nwu_kind == "wrong-txid":
+                want = "Err:UtxoCheck"
+            elif wu_kind == "none" and nwu_kind == "none":
+                want = "Err:UtxoCheck"
+            elif nwu_kind == "none":
+                want = ("spk", "w" if wu_kind == "w" else "prev1") if segwit else "Err:UtxoCheck"
+            elif vout >= n_out:
+                want = "Err:UtxoCheck"
+            elif wu_kind == "none":
+                want = ("spk", "prev%d" % vout)
+            else:
+                same = (wu_kind == "w=prev1" and vout == 1)
+                want = ("spk", "prev1") if same else "Err:UtxoCheck"
+            if isinstance(want, tuple):
+                final = {"match": "Ok", "mismatch": "Err:MismatchedScriptPubkey", "err": "Err:DerivationError"}[outcome]
+            else:
+                final = want
+            try:
+                r = m.call_path(fn, [ps, 0, Term("descriptor")])
+                got = "Ok" if r.variant == "Ok" else "Err:" + getattr(deref(r.fields["0"]), "variant", repr(r.fields["0"]))
+                bad = []
+                if got != final:
+                    bad.append("result %s, expected %s" % (got, final))
+                if isinstance(want, tuple):
+                    if len(seen) != 1 or not (isinstance(seen[0], Adt) and seen[0].variant == "Some" and deref(seen[0].fields["0"]) == want):
+                        bad.append("the updater is given %r to check against, the spent output's script is %r" % (seen, want))
+                elif seen:
+                    bad.append("the updater runs although the utxo fields are inconsistent")
+                chk.obligation(R, not bad, key, "; ".join(bad), where="src/psbt/mod.rs")
+            except Unsupported as e:
+                chk.fail(R, "unanalysable:" + key, "unanalysable: %s" % e, where=e.where, kind="unanalysable")
+                return
+            except Panic as e:
+                chk.fail(R, key, "panic: %s" % e, where="src/psbt/mod.rs")
+    # index out of range
+    m = Machine(F, strict=True)
+    m.hooks[helper] = helper_hook("match")
+    ps = mk_psbt(2, 0, [0], [mk_input("x")])
+    try:
+        r = m.call_path(fn, [ps, 1, Term("descriptor")])
+        n += 1
+        chk.obligation(R, r.variant == "Err" and deref(r.fields["0"]).variant == "IndexOutOfBounds", "index-out-of-range",
+                       "update_input_with_descriptor(1) on a one-input PSBT gives %r" % (r,), where="src/psbt/mod.rs")
+    except (Unsupported, Panic) as e:
+        chk.fail(R, "index-out-of-range", "%s" % e, kind="unanalysable" if isinstance(e, Unsupported) else "violation")
+    chk.floor(R, "cases", n, 140)
+
+
 def run(chk):
     F = chk.facts()
     chk.explanation = __doc__
@@ -1213,3 +1410,5 @@ def run(chk):
         chk.guard("R14.9", "updater-taproot", check_updater_taproot, chk, F)
         chk.guard("R14.10", "key-sources", check_key_sources, chk, F)
         chk.guard("R14.11", "plan-updater", check_plan_updater, chk, F)
+        chk.guard("R14.12", "psbt-satisfier", check_psbt_satisfier, chk, F)
+        chk.guard("R14.13", "update-input", check_update_input, chk, F)
